@@ -571,7 +571,7 @@ func RunRebuild(s *Scen, r *vk.Rand, a, b int, bin, base string, cycles int) {
 		} else if s.Prop == "C05" && cyc == 0 {
 			how = "stop"
 		}
-		if (s.Prop == "C07" || s.Prop == "C12") && (s.Case/100+cyc)%3 == 1 {
+		if (s.Prop == "C07" || s.Prop == "C12") && (s.Case/100+cyc)%3 == 2 {
 			how = "snapkill"
 		}
 		if how == "shortstop" {
@@ -705,6 +705,18 @@ func RunRebuild(s *Scen, r *vk.Rand, a, b int, bin, base string, cycles int) {
 		}
 		time.Sleep(time.Duration(r.Range(0, 500)) * time.Millisecond)
 		// restart; optionally interrupt the rebuild once
+		interrupt := (s.Case/100 + cyc*5) % 9 // every kind of interruption occurs across the workers of a run
+		if (interrupt == 8 || (s.Case/100+cyc)%5 == 4) && s.Prop != "C04" && how != "snapkill" {
+			// a replacement: the pod comes back on another node with an empty directory and has to receive the whole chain
+			if !x.Alive() {
+				ents, _ := os.ReadDir(x.Dir)
+				for _, e := range ents {
+					os.RemoveAll(filepath.Join(x.Dir, e.Name()))
+				}
+				s.Res.Count("replicas_replaced_by_an_empty_one", 1)
+				cl.event("replica %d comes back with an empty directory", x.Idx)
+			}
+		}
 		mon.restarted(x.Addr)
 		x.held = false
 		logFrom := x.LogSize()
@@ -713,12 +725,11 @@ func RunRebuild(s *Scen, r *vk.Rand, a, b int, bin, base string, cycles int) {
 			s.inconclusive("restart: %v", err)
 			return
 		}
-		interrupt := (s.Case/100 + cyc*5) % 9 // every kind of interruption occurs across the workers of a run
 		if s.Prop == "C04" && cyc == 0 {
 			interrupt = 0 // a plain rejoin: the replica missed writes, is rebuilt once and then serves reads
 		}
 		srcKilled := false
-		if interrupt >= 6 {
+		if interrupt == 6 || interrupt == 7 {
 			// single file transfers fail: the ssync sender processes that feed the rebuilding replica are killed as
 			// they appear - for a moment (one transfer fails, the next ones work) or for 2.5 s (every retry fails too)
 			window := 3000 * time.Millisecond
